@@ -46,6 +46,8 @@ type Config struct {
 	FuelLimit     int // loop iterations between two visible operations
 	Trace         bool
 	ReverseCancel bool // cancel child contexts in reverse creation order
+	// OnRendezvous, if set, observes every unbuffered hand-off (sender role, receiver role, channel name).
+	OnRendezvous func(sender, receiver, ch string)
 }
 
 func (c *Config) defaults() {
@@ -714,6 +716,9 @@ func (s *Sched) perform(a alt) {
 				case k.closed:
 					o.panicMsg = "send on closed channel"
 				case len(k.recvq) > 0:
+					if s.cfg.OnRendezvous != nil {
+						s.cfg.OnRendezvous(t.Role, k.recvq[0].t.Role, k.name)
+					}
 					s.wakeWith(k.recvq[0], c.val, true, "")
 				default:
 					k.buf = append(k.buf, c.val)
@@ -732,6 +737,9 @@ func (s *Sched) perform(a alt) {
 				case len(k.sendq) > 0:
 					w := k.sendq[0]
 					o.val, o.ok = w.val, true
+					if s.cfg.OnRendezvous != nil {
+						s.cfg.OnRendezvous(w.t.Role, t.Role, k.name)
+					}
 					s.wakeWith(w, nil, false, "")
 				default: // closed
 					o.val, o.ok = nil, false
